@@ -52,18 +52,22 @@ def generator_obligations(rep):
             if isinstance(st, ast.Assign) and isinstance(st.targets[0], ast.Name):
                 v = st.value
                 name = st.targets[0].id
+                def kterms(e):
+                    """list of (X, Y) Kronecker terms denoted by an expression (kron call, named term, sum of those)"""
+                    if isinstance(e, ast.Call) and ast.unparse(e.func) in ("jnp.kron", "np.kron") and len(e.args) == 2 \
+                            and all(isinstance(a, ast.Name) and a.id in env and not isinstance(env[a.id], (list, str)) for a in e.args):
+                        return [(env[e.args[0].id], env[e.args[1].id])]
+                    if isinstance(e, ast.Name) and isinstance(env.get(e.id), list):
+                        return list(env[e.id])
+                    if isinstance(e, ast.BinOp) and isinstance(e.op, ast.Add):
+                        return kterms(e.left) + kterms(e.right)
+                    raise Outside(f"`{ast.unparse(e)[:50]}` is not a sum of kron(X, Y) terms")
                 if isinstance(v, ast.Call) and isinstance(v.func, ast.Name) and v.func.id in fns and len(v.args) == 1 and ast.unparse(v.args[0]) in dim:
                     env[name] = be.call_fn(v.func.id, [dim[ast.unparse(v.args[0])]], {})
-                elif isinstance(v, ast.BinOp) and isinstance(v.op, ast.Add):
-                    terms = []
-                    for side in (v.left, v.right):
-                        if not (isinstance(side, ast.Call) and ast.unparse(side.func) == "jnp.kron" and len(side.args) == 2
-                                and all(isinstance(a, ast.Name) and a.id in env for a in side.args)):
-                            raise Outside("generator is not a sum of kron(X, Y) terms")
-                        terms.append((env[side.args[0].id], env[side.args[1].id]))
-                    env[name] = "generator"
                 else:
-                    raise Outside(f"statement `{ast.unparse(st)[:60]}`")
+                    env[name] = kterms(v)
+                    terms = env[name]
+                    gen_last = name
             elif isinstance(st, ast.Return):
                 ret = ast.unparse(st.value)
             else:
@@ -71,10 +75,9 @@ def generator_obligations(rep):
         if terms is None:
             raise Outside("no generator found")
     except Outside as o:
-        rep.add_ob(Obligation(f"{fq}::subset", fq, "subset", "pyvc", "unknown", detail=str(o)))
-        rep.undecided.append(f"{fq}: {o}")
+        rep.not_covered(fq, "\n".join(ast.unparse(s) for s in arm.body), f"beam-splitter arm: {o}")
         return
-    gen_name = [k for k, v in env.items() if v == "generator"][0]
+    gen_name = gen_last
     obs.append(("ensures:operator-is-expm(1j*eta*generator)", z3.BoolVal(ret == f"expm(1j * kwargs['eta'] * {gen_name})"), []))
     # conservation: offsets of every term sum to zero
     cons = all((ox + oy) == 0 for X, Y in terms for ox in X.bands for oy in Y.bands)
@@ -102,16 +105,23 @@ def generator_obligations(rep):
             rep.undecided.append(f"{fq}: {name} = {st}")
     # cut-off: compute_dimensions returns total + 1 for both modes
     fq2 = f"{COMP}::CompositeOperationType.compute_dimensions[NonPolarizingBeamSplitter]"
+    import sympy as _sp
+    from vf.pyvc import armeval
+    from vf.pyvc.listexec import Outside as _Outside
     try:
         fn2 = next(n for n in cls.body if isinstance(n, ast.FunctionDef) and n.name == "compute_dimensions")
-        m2 = next(s for s in fn2.body if isinstance(s, ast.Match))
-        arm2 = next(c for c in m2.cases if ast.unparse(c.pattern).endswith("NonPolarizingBeamSplitter"))
-        txt = [ast.unparse(s) for s in arm2.body]
-        ok = txt == ["dim = int(jnp.sum(jnp.array(num_quanta))) + 1", "return [dim, dim]"]
-    except Exception:
-        ok, txt = False, []
-    rep.add_ob(Obligation(f"{fq2}::ensures:cutoff-is-total-occupation-plus-one-on-both-modes", fq2, "ensures", "pyvc", "discharged" if ok else "failed", detail="; ".join(txt)))
-    if not ok:
+        body2 = armeval.arm_for(fn2, "NonPolarizingBeamSplitter")
+        if body2 is None:
+            raise _Outside("no match arm for NonPolarizingBeamSplitter")
+        got2 = armeval.eval_arm(body2, {"num_quanta": _sp.Symbol("num_quanta_list")})
+        txt = [str(g) for g in got2]
+        ok = len(got2) == 2 and all(armeval.same(g, _sp.Symbol("total") + 1) for g in got2)
+    except (_Outside, StopIteration) as o2:
+        rep.not_covered(fq2, ast.get_source_segment(src, cls) or "", f"beam-splitter cut-off arm: {o2}")
+        ok, txt = None, []
+    if ok is not None:
+      rep.add_ob(Obligation(f"{fq2}::ensures:cutoff-is-total-occupation-plus-one-on-both-modes", fq2, "ensures", "pyvc", "discharged" if ok else "failed", detail="; ".join(txt)))
+    if ok is False:
         rep.violation(f"{fq2}: the beam-splitter cut-off is not total occupation + 1 on both modes: {txt}", key=f"P:{fq2}",
                       replay={"kind": "obligation", "function": fq2, "failed_obligations": [fq2], "solver_output": txt}, no_input=True)
 
